@@ -391,3 +391,36 @@ Proof.
   destruct (report_alone_complete base (fst s) Hm) as (H1 & H2 & H3 & H4); [lia|exact Hc|].
   repeat split; assumption.
 Qed.
+
+(* non-vacuity of the hypotheses of the round-3 / round-4 theorems and of "every thread has finished" in the traffic model *)
+Lemma more_premises_satisfiable :
+  Forall q_ok [QStart; QStart; QClose] /\
+  NoDup (flat_map b_pending [BClose; BAttach 7; BClose; BAttach 8]) /\
+  forallb i_initial [ILookup; ILookup; IMgrClose] = true /\
+  (exists sched, forallb r_finished (snd (rrun true 0 [CAdd [100%Z]; RLock; RLock] sched)) = true /\
+                 r_stats (fst (rrun true 0 [CAdd [100%Z]; RLock; RLock] sched)) = 100%Z).
+Proof.
+  split; [repeat constructor|]. split.
+  { cbn. constructor; [intros [H|[]]; discriminate|]. constructor; [intros []|constructor]. }
+  split; [reflexivity|].
+  exists ([0] ++ repeat 1 8 ++ repeat 2 8)%nat. vm_compute. split; reflexivity.
+Qed.
+
+(* the model-level part of "after close has returned ... no goroutine or timer started by the component remains" *)
+Lemma nothing_left_running_model_level :
+  (forall spawns ts sched, forallb (e_initial true) ts = true ->
+     let s := erun true spawns ts sched in
+     forallb e_returned (snd s) = true -> existsb e_is_closer (snd s) = true -> e_monitors_alive (fst s) = false) /\
+  (forall sh ls h, t_gate sh = true ->
+     (nth_error ls h = Some HRun \/ nth_error ls h = Some HSend \/ nth_error ls h = Some HDone) ->
+     nth_error (snd (run _ _ (tstep2 true) (sh, ls) [h; h])) h = Some HDone) /\
+  (forall ts pre, forallb f_initial ts = true ->
+     exists sched, forallb (fun t => negb (f_close_pending t))
+                     (snd (run _ _ (fstep false) (run _ _ (fstep false) (finit, ts) pre) sched)) = true).
+Proof.
+  split; [|split].
+  - intros spawns ts sched Hi s Hr Hc.
+    destruct (start_close_all_schedules spawns ts sched Hi) as (_ & _ & H). exact (proj2 (proj2 (H Hr Hc))).
+  - exact timeout_helper_always_finishes.
+  - intros ts pre Hi. exact (proj2 (close_completes_despite_stalled_writes ts pre Hi)).
+Qed.
